@@ -299,6 +299,13 @@ Proof.
   rewrite (Rmult_comm (sin a)), (Rmult_comm (cos a)). now apply atan2_scale.
 Qed.
 
+Lemma mean_all_equal_matrix cols (al : list R) w : cols <> 1%nat -> 0 < wtot cols w ->
+  dir_mean ROps cols (map (fun a => repeat a cols) al) w = map (wrap ROps) al.
+Proof.
+  intros Hc Hw. rewrite mean_general by assumption. rewrite map_map. apply map_ext.
+  intros a. now apply mean_row_all_equal.
+Qed.
+
 Lemma mean_row_all_equal_in_range a n w : 0 < wtot n w -> - PI < a <= PI ->
   mean_row ROps (repeat a n) w = a.
 Proof. intros H Ha. rewrite mean_row_all_equal by assumption. now apply wrap_id. Qed.
